@@ -505,13 +505,9 @@ def r4_terminal(chk):
     prog = chk.prog
     for spec in (f"{GEO}:CartesianGeometry.yield_from_xyz", "molli.chem.structure:Structure.yield_from_mol2"):
         f = prog.func(spec)
-        uses = [c for c in walk_no_nested(f.node) if isinstance(c, ast.Call) and isinstance(c.func, ast.Attribute) and c.func.attr == "scale"
-                and "source_units" in names_in(c)]
-        chk.decide(len(uses) == 1, "C08.R4", f"{f.key}:source_units-reaches-scaling", f.where(uses[0] if uses else None),
-                   "DistanceUnit[source_units] feeds the scaling", f"{f.qualname} does not use source_units in the scaling")
-        # scaling happens before the yield and on the object that is yielded
-        ys = [s for s in walk_no_nested(f.node) if isinstance(s, ast.Expr) and contains_yield(s)]
-        if uses and ys:
-            recv = norm(uses[0].func.value)
-            chk.decide(norm(ys[0].value.value) == recv and uses[0].lineno < ys[0].lineno, "C08.R4", f"{f.key}:scaled-object-is-yielded", f.where(ys[0]),
-                       f"`{recv}` is scaled, then yielded", "the object that is scaled is not the one yielded (or it is scaled after the yield)")
+        sites = unit_sites(f.node)
+        asg = assignments(f.node)
+        # the unit must be looked up from the `source_units` parameter
+        looked_up = any(isinstance(n, ast.Subscript) and norm(n.value) == "DistanceUnit" and "source_units" in names_in(n.slice) for n in ast.walk(f.node))
+        chk.decide(bool(sites) and looked_up, "C08.R4", f"{f.key}:source_units-reaches-scaling", f.where(sites[0]["node"] if sites else None),
+                   "DistanceUnit[source_units] feeds the scaling", f"{f.qualname} does not use source_units in a scaling of the coordinates")
